@@ -8,7 +8,7 @@ from ..callgraph import get_callgraph
 from ..cfg import cfg_of
 from ..locks import get_locks
 from ..model import AnalysisError, dotted, norm
-from .common import bool_atoms, bool_eval, find_calls, guards_of, key_of, mentions, mentions_attr
+from .common import bool_atoms, bool_eval, find_calls, guards_of, key_of, mentions, mentions_attr, with_private_helpers
 
 EXPLANATION = (
     "Static 'publish => wake' analysis on all CFG paths: every normal path through the worker's service() ends with a "
@@ -230,7 +230,7 @@ def rule_r6(ctx):
         else:
             ctx.r.violation(rid, key_of(m, None, "trigger-" + name), "trigger.%s() is not constantly %s" % (name, want), m.loc())
     hr = trig.lookup("handle_read")
-    if any(isinstance(c, ast.Call) and dotted(c.func) == "self.recv" for c in ast.walk(hr.node)):
+    if any(isinstance(c, ast.Call) and dotted(c.func) == "self.recv" for h in with_private_helpers(p, cg, hr) for c in ast.walk(h.node)):
         ctx.r.ok(rid, "trigger.handle_read drains the pipe", hr.loc())
     else:
         ctx.r.violation(rid, key_of(hr, None, "no-drain"), "trigger.handle_read does not read the pipe: the loop would spin or the pipe fill up", hr.loc())
